@@ -27,26 +27,30 @@ TEXT = {
     "text": ('Theorems: after assign everything that follows runs with the variable bound to the value (assign_seq; the variable '
               'map is one flat map threaded through the render), capture runs its body against a private buffer, binds exactly '
               'the text and leaves output and trim state untouched (capture_seq, captureM_keeps_tw), a loop restores its variable '
-              "and forloop on normal end, break and continue (loop_restores), an include starts from the includer's current "
-              'variables and its assignments do not flow back (include_sees_vars, include_isolated). Capture equivalence '
-              '(capture_equiv, capture_equiv_root, capture_equiv_root_conv/_iff, capture_equiv_engine for the engine\'s own context, capture_equiv_root_err for a failing body: same error, re-wrapped at the capture tag): for every body that renders normally in place, '
+              "and forloop on normal end, break and continue (loop_restores), the include handler is handed exactly the includer's current "
+              'variable map (include_sees_vars; that the engine\'s handler renders the file with it is C14) and the assignments of the included file do not flow back (include_isolated). Capture equivalence '
+              '(capture_equiv, capture_equiv_root, capture_equiv_root_conv/_iff, capture_equiv_engine for the engine\'s own context, capture_equiv_root_err for a failing body: the same error re-wrapped at the capture tag, but the partial output F wrote before failing is not written by the capture form), for every context whose include handler renders into its own buffer (IncQuiet) and whose output layer prints a string as its bytes (both proved for the engine\'s), on a writer that does not fail: for every body that renders normally in place, '
               'capture-then-print puts exactly the same bytes through the trim writer and leaves the same variables plus the '
               'captured one - in any state whose pending text has no trailing white space and whose trim flag is clear, in '
-              'particular for whole templates, where the two render normally under exactly the same conditions; each side '
-              'condition comes with a proved counterexample (capture_needs_no_trailing_space, capture_needs_flag_clear, '
-              'capture_trailing_trim_differs). Flat scope: a fragment changes only the variables it writes, loops restoring '
+              'particular for whole templates, where the two render normally under exactly the same conditions; each of the two state '
+              'conditions comes with a proved counterexample (capture_needs_no_trailing_space, capture_needs_flag_clear). '
+              'Flat scope: a fragment changes only the variables it writes, loops restoring '
               'their own two (only_written_change); a condition on the variables established at the end of the bodies of an '
-              'if / case / for / tablerow block holds after the block (block_end_scope, if_scope, case_scope, loop_scope, '
-              'loop_scope_visited), an assignment inside a block body is still bound after the block whatever follows it '
-              'inside (assign_scope_global; assign_scope_expr for an expression whose value the preceding nodes determine), composed for three nested blocks in assign_scope_nested. From source bytes (Proofs.C12Source, every good delimiter set, value layer and environment; for capture every output layer that prints a string as its bytes, the standard one included): the source {% capture v %}F{% endcapture %}{{ v }} renders normally exactly when the self-contained piece F does as a template of its own, to the same bytes (capture_source, capture_source_std), and {% assign x = e %}R gives the result of R run with x bound to the value of e, or fails at the line of the assign tag with the evaluation error of e (assign_source). Tie: the `scope` stream '
+              'if / case / for / tablerow block holds after the block (block_end_scope, if_scope, case_scope; loop_scope, '
+              'loop_scope_visited for a loop with at most one else clause), the assignment of a literal inside a block body is still bound after the block whenever the body ends normally '
+              'and nothing after it in the body writes that variable (assign_scope_global; assign_scope_expr for an expression whose value the preceding nodes determine), composed for three nested blocks in assign_scope_nested. From source bytes (Proofs.C12Source, every good delimiter set, clean item list, value layer and environment, results of run, i.e. on a writer that does not fail; for capture every output layer that prints a string as its bytes, the standard one included): the source {% capture v %}F{% endcapture %}{{ v }} renders normally exactly when the self-contained piece F does as a template of its own, to the same bytes (capture_source, capture_source_std; nothing is said there about a failing F), and {% assign x = e %}R gives the result of R run with x bound to the value of e, or fails at the line of the assign tag with the evaluation error of e (assign_source). Tie: the `scope` stream '
               'answers every case by the model and the real engine; an independent reference environment interpreter checks every '
               'probe value on the real output, and the capture equivalence is also checked as a metamorphic relation between two '
-              'real renders.'),
+              'real renders (equal bytes, or two failures of the same kind).'),
     "design_ref": 'DESIGN.md 6 C12',
-    "note": NOTE + ('The capture equivalence is a theorem about the bytes of the fragment and the variables; it does not claim that '
+    "note": NOTE + ('The capture equivalence is a theorem about the bytes of the fragment and the variables of renders that end normally on a writer that does not fail, '
+              'in a context with a quiet include handler and a string-printing output layer; when F fails the two forms fail with the same error (re-wrapped at the capture tag) but '
+              'the output F produced before failing appears only in place (capture_equiv_root_err). It does not claim that '
               'what follows the fragment sees the same trim-writer state (a trailing -%} inside the body trims what follows only '
               'in place: capture_trailing_trim_differs). The scope rules are pre/post-condition rules on the variables; which '
-              'branch or iteration runs enters through their hypotheses.'),
+              'branch or iteration runs enters through their hypotheses; the loop rules are stated for at most one else clause, assign_scope_global for a literal value, a body '
+              'that ends normally and no later write of the variable in that body. include_sees_vars is about the abstract include handler of the context (the engine\'s handler: C14). '
+              'The source-level theorems need a clean item list (Clean, DESIGN 7.1).'),
     "technique": ('Lean 4 proof (state-threading lemmas on the render monad; independence of the render from the trim-writer state; '
               'frame and pre/post-condition rules by mutual induction over the node tree) + model/implementation correspondence + independent '
               'reference and metamorphic oracle'),
